@@ -442,6 +442,7 @@ var (
 	reHex  = regexp.MustCompile(`0x[0-9a-f]+`)
 	reNum  = regexp.MustCompile(`\d+`)
 	reLine = regexp.MustCompile(`:\d+`)
+	reArgs = regexp.MustCompile(`\([^()]*\)$`)
 )
 
 func fatalSignature(log string) string {
@@ -492,10 +493,7 @@ func raceSignature(blk string) string {
 			inAccess = false
 		}
 		if inAccess && !taken && t != "" && !strings.HasPrefix(t, "/") && !strings.HasPrefix(t, "runtime.") {
-			fn := t
-			if i := strings.Index(fn, "("); i > 0 && !strings.HasPrefix(fn[i:], "(*") {
-				fn = fn[:i]
-			}
+			fn := reArgs.ReplaceAllString(t, "")
 			fn = reLine.ReplaceAllString(fn, "")
 			fr = append(fr, fn)
 			taken = true
